@@ -77,6 +77,10 @@ def jobs(tier):
     J.append(conc_real("lfht_qsbr", {}, "1,0,0,0" if q else "2,0,0,0", hmap=1, init=4, prog0=prog((K_RESIZE, 1)), prog1=rd, **TWO))
     J.append(conc_real("lfht_qsbr", {}, "1,0,0,0" if q else "2,0,0,0", flags=1, hmap=4, init=1, ninit=3, init_keys=0x210, prog0=prog((K_ADD, 3)),
                        prog1=prog((K_DEL, 0), (K_LOOKUP, 1))))
+    # qsbr: a count-driven lazy shrink is queued for the worker while another thread shrinks explicitly (the worker must not hold off
+    # the grace period the mutex holder waits for)
+    J.append(conc_real("lfht_qsbr", {}, "1,0,0,0", flags=3, hmap=1, count_commit_order=0, init=8, ninit=3, init_keys=0x210, prog0=prog((K_DEL, 0)),
+                       prog1=prog((K_RESIZE, 2))))
     for b, env in REAL:
         rp = dict(qs_attempts=1, wait_attempts=1)
         J.append(Job(b, "seq", "0,0,0,0", dict(rp, len=5 if q else 6, keys=2, hmap=1, alpha_seq=1, nresize=12), env, workers=8))
